@@ -298,7 +298,10 @@ func (sim) Generate(prop, tier string, seed uint64) *core.Plan {
 			m, kk := mode()
 			a = []int64{int64(r.Intn(5)), int64(r.Intn(5)), int64(r.Intn(2)), m, kk}
 		case "convert":
-			a = []int64{int64(r.Intn(2))}
+			a = []int64{int64(r.Intn(2)), 0}
+			if prop == "C04" && r.Intn(3) == 0 {
+				a[1] = int64(1 + r.Intn(2))
+			}
 		case "clock":
 			a = []int64{int64(r.Range(1, 7200))}
 		}
